@@ -22,14 +22,41 @@ def sched_line(kind, name, ns, fs, streams, cap, pace):
     return 'SCHED %s %s %s %s %s %d %d' % (kind, name, vlib.il(ns), vlib.fl(fs), vlib.streams(streams), cap, pace)
 
 
+class ExtremeRng:
+    """draws periods at the ends of their range: re-converging branches that lag by a period difference need
+    configurations with very different periods to show an insufficient buffer"""
+    def __init__(self, rng):
+        self.rng = rng
+
+    def randrange(self, a, b=None):
+        if b is None:
+            a, b = 0, a
+        return a if self.rng.random() < 0.5 else b - 1
+
+    def choice(self, xs):
+        return self.rng.choice(xs)
+
+    def random(self):
+        return self.rng.random()
+
+    def sample(self, xs, k):
+        return self.rng.sample(xs, k)
+
+
 def gen_pipelines(rng, tier):
     """list of dict(kind, name, ns, fs, streams, lens, ref_line or None)"""
     cases = []
     hi = 6 if tier == 'quick' else 12
-    cfgs = 2 if tier == 'quick' else 5
+    cfgs = 4 if tier == 'quick' else 8
+    xr = ExtremeRng(rng)
     for name, (kinds, cfg, default) in CAT.items():
         for j in range(cfgs):
-            ns, fs = cfg(rng, hi if j else 3)
+            if j % 4 == 2:
+                ns, fs = cfg(xr, 2 * hi)
+            elif j % 4 == 3:
+                ns, fs = cfg(rng, 3 * hi)
+            else:
+                ns, fs = cfg(rng, hi if j else 3)
             ns, fs = list(ns), list(fs)
             lens = ind_lengths(rng, ns)
             if tier == 'quick':
@@ -49,7 +76,10 @@ def gen_pipelines(rng, tier):
     for name in snames:
         sc = SCAT[name]
         for j in range(cfgs):
-            ns, fs = sc['cfg'](rng, hi if j else 3)
+            if j % 4 == 2:
+                ns, fs = sc['cfg'](xr, 2 * hi)
+            else:
+                ns, fs = sc['cfg'](rng, hi if j else 3)
             ns, fs = list(ns), list(fs)
             w = strat_idle(name, ns)
             lens = sorted({0, 1, max(0, w - 1), w, w + 1, w + 2, 2 * w + 3, rng.randrange(0, 3 * w + 10)})
@@ -187,6 +217,9 @@ def check_c03(res, tier, replay):
                 if bad <= 40:
                     res.violation({'case': c, 'settings': [[procs, cap, pace]], 'problem': problem, 'go_output': g[:400],
                                    'oracle': 'terminates (every output closed, every reader done), every input fully consumed, no library goroutine left, outputs identical for every schedule and equal to the Lean model'})
+    # the machine-level model of one re-converging pipeline against the same pipeline built from the Go helpers
+    net_runs, net_bad = net_correspondence(res, tier, rng)
+    bad += net_bad
     for k, v in known.items():
         res.known_hit.append('%s [%d runs]' % (k, v))
     res.samples = [{'case': '%s %s ns=%s lens=%s' % (c['kind'], c['name'], c['ns'], c['lens'])} for c in cases[:3]]
@@ -195,7 +228,7 @@ def check_c03(res, tier, replay):
         'rule': 'pipeline (61 indicators, 32 strategies as Compute / Report / ComputeWithOutcome, compound and decorated strategies) x configuration x input length '
                 '(0, 1, around every period and the warm-up, unequal lengths for multi-input indicators) x schedule setting (GOMAXPROCS, input channel capacity, pacing mode)',
         'settings': [list(s) for s in setts], 'pipelines': len(cases), 'runs_per_kind': dict(per_kind), 'verdicts': dict(verdicts),
-        'compared_with_model': model_cmp, 'violations_found': bad, 'problems': {str(k): v for k, v in res.coverage.get('problems', {}).items()}, 'traces_validated_against_impl': runs,
+        'compared_with_model': model_cmp, 'network_model_runs': net_runs, 'violations_found': bad, 'problems': {str(k): v for k, v in res.coverage.get('problems', {}).items()}, 'traces_validated_against_impl': runs,
         'pacing_modes': '0 none, 1 Gosched per op, 2 slow producers, 3 slow consumers, 4 last reader starts late, 5 random sleeps/yields, 6 first reader starts late, 7 bursty readers, 8 producers start late',
         'trusted_base': vlib.TRUSTED + ['deadlock verdict: no progress and every goroutine of the process blocked on a channel/lock in two censuses (runtime.Stack)',
                                          'Go scheduler explored by GOMAXPROCS and pacing only; the schedule-independence theorem (C03.determinacy) is what extends one observed schedule to all'],
@@ -203,6 +236,32 @@ def check_c03(res, tier, replay):
     res.assumptions = ['the library stays inside the process class of the theorem (sequential goroutines, blocking channel operations only, one reader and one writer per channel): checked by the source scan in tools/c_runtime.py']
     scan_class(res)
     return res.finish()
+
+
+def net_correspondence(res, tier, rng):
+    """Duplicate -> Operate -> Operate (NetM.diamondNet, repaired Operate) in Lean vs helper.Add(helper.Add(d0, b), d1) in Go:
+    verdict (clean termination / deadlock) and delivered values, for all small length pairs and capacities"""
+    top = 4 if tier == 'quick' else 7
+    cases = [(la, lb, cap) for la in range(top) for lb in range(top) for cap in (0, 1, 2)]
+    glines, mlines = [], []
+    for i, (la, lb, cap) in enumerate(cases):
+        a = [float(k + 1) for k in range(la)]
+        b = [float(10 * (k + 1)) for k in range(lb)]
+        glines.append('n%d SCHED NET diamond - - %s %d %d' % (i, vlib.streams([a, b]), cap, i % 6))
+        mlines.append('n%d NET diamond 1 %d %s %s' % (i, cap, vlib.il(a), vlib.il(b)))
+    go, model = vlib.run_go(glines), vlib.run_model(mlines)
+    bad = 0
+    for i, c in enumerate(cases):
+        g, m = parse_sched(go.get('n%d' % i, 'missing')), model.get('n%d' % i, 'missing')
+        mv, mo = (m.split(' | ') + [''])[:2]
+        gv = [int(vlib.h2f(x)) for x in g['outs'].split(',')] if g.get('outs') not in (None, '-', '_') else []
+        mvv = [int(x) for x in mo.split(',')] if mo.strip() not in ('', '-') else []
+        if g['status'] != mv.strip() or (g['status'] == 'ok' and gv != mvv):
+            bad += 1
+            res.violation({'broken': 'correspondence', 'name': 'NET diamond', 'case': {'kind': 'NET', 'name': 'diamond', 'ns': [], 'fs': [], 'streams': [], 'lens': list(c[:2]), 'equal': c[0] == c[1]},
+                           'go_output': go.get('n%d' % i, '')[:200], 'model_output': m[:200],
+                           'note': 'the Go helpers no longer behave like the machines of the network model'}, no_failing_input=(g['status'] == 'ok'))
+    return len(cases), bad
 
 
 # ------------------------------------------------------------------------------------------ class scan
